@@ -28,6 +28,8 @@ pub mod tpl;
 
 #[cfg(test)]
 mod utils;
+#[cfg(mila_verif)]
+pub mod verif_seam;
 
 use endian_aware_io::{EndianAwareReader, EndianAwareWriter};
 
